@@ -20,10 +20,14 @@ Line-protocol driver for the C12 model (observed / cached properties).
                     cached, the same over two levels, base cached / sub uncached, redeclared with another
                     expression in the subclass); `expr` and `cached` are the EFFECTIVE ones, which is all the
                     model needs: the field is ignored here
-            extras  - | letters: A = class-level `_anytrait_changed` listener (D = dynamic defaults
-                    returning shared objects: implementation + oracle only, never sent here)
+            extras  - | letters: A = class-level `_anytrait_changed` listener; S / T = the property has a
+                    setter `_set_p(self, value)` / `_set_p(self, name, value)` that writes the value to
+                    `value` of the first object the first `…v` path selects (root.aux when no path ends in
+                    `v`); V = declared `Property(Int, …)` (validated before the setter runs)
+                    (D = dynamic defaults returning shared objects: implementation + oracle only, never sent here)
   step  :=  sv o f x | si o t | sk o [ids] | mk o op [ids] e | sb o {k:id,…} | mb o op {…} e
           | st o [ints] | mt o op [ints] e | rd | at [kind] | dt [kind] | cp kind | K w/w/…
+          | sp x (root.p = x; x = bad: a string) | dp (del root.p)
             at / dt kind: t on_trait_change(h, 'p') | o observe(h, 'p') | n on_trait_change(h) (no name:
             object-level) ; without kind: t and o together (and the `rp` reader)
   out   :=  per step:  read c<calls> x[nested] s[static notes] t[otc notes] o[observe notes]
@@ -102,6 +106,8 @@ structure Shape where
   undef : Bool
   fail : Option (Nat × Exc)
   staticAny : Bool := false
+  setN : Option Nat := none
+  validated : Bool := false
 
 def parseFail (s : String) : Option (Option (Nat × Exc)) :=
   if s = "-" then some none
@@ -123,10 +129,35 @@ def parseShape (s : String) : Option Shape :=
     if inh = "-" ∨ inh = "bu" ∨ inh = "b2" ∨ inh = "bc" ∨ inh = "rd" then parseShape10 e c v sl ra rv rp g u f
     else none
   | [e, c, v, sl, ra, rv, rp, g, u, f, inh, ex] =>
-    if (inh = "-" ∨ inh = "bu" ∨ inh = "b2" ∨ inh = "bc" ∨ inh = "rd") ∧ (ex = "-" ∨ ex = "A") then
-      (parseShape10 e c v sl ra rv rp g u f).map (fun sh => { sh with staticAny := ex = "A" })
+    if (inh = "-" ∨ inh = "bu" ∨ inh = "b2" ∨ inh = "bc" ∨ inh = "rd")
+        ∧ (ex = "-" ∨ ex.toList.all (fun ch => ch = 'A' ∨ ch = 'S' ∨ ch = 'T' ∨ ch = 'V')) then
+      (parseShape10 e c v sl ra rv rp g u f).map (fun sh =>
+        { sh with staticAny := ex.toList.contains 'A', validated := ex.toList.contains 'V',
+                  setN := if ex.toList.contains 'S' then some 2 else if ex.toList.contains 'T' then some 3 else none })
     else none
   | _ => none
+
+/-- the value `sp bad` assigns (a string: rejected by `Int`) -/
+def badValue : Int := 1000000
+
+def firstTarget (h : Heap) : List Link → Id → Option Id
+  | [], o => some o
+  | l :: ls, o =>
+    match targets h o l with
+    | [] => none
+    | t :: _ => firstTarget h ls t
+
+/-- The canonical setter of the correspondence classes. -/
+def setterWrites (E : Expr) (h : Heap) (x : Option Int) : Except Exc (List Mutation) :=
+  match x with
+  | none => .ok []
+  | some x =>
+    match E.find? (fun p => decide (p.leaf = .scalar .value)) with
+    | some p =>
+      match firstTarget h p.links 0 with
+      | none => .ok []
+      | some o => if x = badValue then .error .traitError else .ok [⟨o, .scalar .value x, false⟩]
+    | none => if x = badValue then .error .traitError else .ok [⟨0, .scalar .aux x, false⟩]
 
 def mkEnv (sh : Shape) : Env String :=
   let g : Heap → String :=
@@ -139,6 +170,8 @@ def mkEnv (sh : Shape) : Env String :=
       | none => .ok (g h),
     isUndef := fun v => v == "U",
     cached := sh.cached, legacy := sh.legacy, staticL := sh.static, staticAny := sh.staticAny,
+    fset := sh.setN.map (fun _ => setterWrites sh.E), setN := sh.setN.getD 2,
+    fvalidate := if sh.validated then some (fun x => if x = badValue then .error .traitError else .ok x) else none,
     postInit := Source.postInit,
     fires := firesSpec sh.E 0,
     sibPre := fun m => decide (m.obj = 0) &&
@@ -191,6 +224,8 @@ def parseStep (s : String) : Option Step :=
   | ["st", o, l] => do pure (.change ⟨← o.toNat?, .tags (← intList? l), false⟩)
   | ["mt", o, _, l, e] => do pure (.change ⟨← o.toNat?, .tags (← intList? l), ← bool? e⟩)
   | ["rd"] => some .read
+  | ["sp", x] => if x = "bad" then some (.set (.value badValue)) else (int? x).map (fun v => .set (.value v))
+  | ["dp"] => some (.set .delete)
   | ["cp", _] => some .copy
   | ["K"] => some (.construct [])
   | ["K", ws] => do pure (.construct (← (ws.splitOn "/").mapM parseWrite))
@@ -234,7 +269,10 @@ def runShow (P : Env String) : St String → Bool → Bool → List DStep → Li
   | s, tA, oA, .model st :: rest =>
     let fresh := match st with | .construct _ => true | .copy => true | _ => false
     let s' := step P s st
-    let read := match st with | .read => showRes (readProp P s).1 | _ => "-"
+    let read := match st with
+      | .read => showRes (readProp P s).1
+      | .set a => (match (setProp P s a).1 with | .error e => s!"!!{e.name}" | .ok _ => "-")
+      | _ => "-"
     let notes := if fresh then s'.notes else s'.notes.drop s.notes.length
     let nested := if fresh then s'.nested else s'.nested.drop s.nested.length
     let tA' := if fresh then false else tA
